@@ -89,7 +89,7 @@ TCall == /\ i <= Len(Tr) /\ Ev.e \notin {"Init", "End", "Tree", "Find", "Rebuild
             /\ B # {}                                              \* no operator is called with an empty list
             /\ (Ev.e \in {"M2M", "M2L", "L2L"} => Cardinality(B) = Len(Ev.s))   \* no source handed twice in one call
             /\ B \subseteq pending                                 \* exists for this occupancy with these exact arguments, not yet performed
-            /\ \A e \in B : Guard(e, pending)                      \* dataflow: inputs complete
+            /\ \A e \in B : GuardFast(e, pending)                      \* dataflow: inputs complete
             /\ pending' = pending \ B
          /\ step' = step + 1 /\ i' = i + 1 /\ UNCHANGED <<sparts, tparts, stop, bad>> /\ Unused
 TEnd == /\ i <= Len(Tr) /\ Ev.e = "End" /\ pending = {}                \* nothing lost
